@@ -44,7 +44,6 @@ class GadgetBench:
         names = [f'i{k}' for k in range(n_inputs)]
         for l in names:
             c.emplace_gate(l, self.types['INPUT'])
-        c.mark_as_output = lambda label: (c._outputs.append(label) if label in c._gates else (_ for _ in ()).throw(InterpRaise('CircuitValidationError')))
         c.log.clear()
         return c, names
 
